@@ -15,9 +15,17 @@
 //! (m.html; z.html including a.html; y.html calling X) that are valid only next to the right glob.
 //! (Seeded change C10-10 returned from a refused pattern before the previous templates and the
 //! previous glob were put back.)
+//!
+//! Files that CHANGE between calls (ops `changing_ops`): one more directory, private to the worker
+//! process, whose content is one of five variants - two valid sets, one with a file that stopped
+//! parsing, one that lost `a.html`, one with no file at all. `Disk(v)` switches the variant (no
+//! engine call); `load_from_glob` of that directory and `full_reload` then find what is there, so
+//! a reload can be refused and a later reload (after the file is repaired) must work again.
+//! (Seeded changes C10-11: a refused `full_reload` lost the glob; C11-11: a glob that matches no
+//! file at all was accepted without validating the manual templates that depend on it.)
 
 use mccore::engine::{self, Out};
-use mccore::{Json, json};
+use mccore::{Acc, Json, json};
 use std::collections::{BTreeMap, HashMap};
 use std::path::{Path, PathBuf};
 use tera::{Context, Tera};
@@ -61,6 +69,26 @@ pub enum Op {
     MatchesNothing,
     Reload,
     Manual(usize),
+    /// load_from_glob of the worker's private directory (whatever variant is on disk)
+    GlobChanging,
+    /// rewrite the private directory to variant v (no engine call)
+    Disk(usize),
+}
+
+/// The variants of the private directory.
+pub const VARIANTS: [(&str, &[(&str, &str)]); 5] = [
+    ("valid", &[("a.html", "A0"), ("b.html", "B0")]),
+    ("a.html stopped parsing", &[("a.html", "{% if %}"), ("b.html", "B0")]),
+    ("a.html removed", &[("b.html", "B0")]),
+    ("no file at all", &[]),
+    ("valid, other content", &[("a.html", "A4[{% include \"b.html\" %}]"), ("b.html", "B4")]),
+];
+
+/// Operations of the family with changing files.
+pub fn changing_ops() -> Vec<Op> {
+    let mut v = vec![Op::GlobChanging, Op::Glob(0), Op::Reload, Op::NoStar, Op::Manual(1)];
+    v.extend((0..VARIANTS.len()).map(Op::Disk));
+    v
 }
 
 pub fn ops() -> Vec<Op> {
@@ -74,8 +102,12 @@ pub fn ops() -> Vec<Op> {
 #[derive(Clone, Copy, Debug, PartialEq, Eq, Hash, Default)]
 pub struct State {
     pub manual: u8,
-    /// 0 none, 1 + k = directory k, 255 = the pattern that matches nothing
+    /// 0 none, 1 + k = directory k, 254 = the private directory, 255 = the pattern that matches nothing
     pub glob: u8,
+    /// variant of the private directory currently on disk
+    pub disk: u8,
+    /// variant of the private directory the instance loaded last (meaningful when glob == 254)
+    pub loaded: u8,
 }
 
 impl State {
@@ -91,18 +123,27 @@ impl State {
                 m.insert(n.to_string(), s.to_string());
             }
         }
+        if self.glob == 254 {
+            for (n, s) in VARIANTS[self.loaded as usize].1 {
+                m.insert(n.to_string(), s.to_string());
+            }
+        }
         m.into_iter().collect()
     }
     pub fn json(&self) -> Json {
         json!({
             "manual_templates": MANUAL.iter().enumerate().filter(|(i, _)| self.manual & (1 << i) != 0).map(|(_, (n, _))| *n).collect::<Vec<_>>(),
-            "glob": match self.glob { 0 => "none".to_string(), 255 => "matches nothing".to_string(), k => format!("{}/**/*.html", DIRS[k as usize - 1].0) },
+            "glob": match self.glob { 0 => "none".to_string(), 255 => "matches nothing".to_string(), 254 => format!("<private>/**/*.html, loaded when the directory held variant {} ({})", self.loaded, VARIANTS[self.loaded as usize].0), k => format!("{}/**/*.html", DIRS[k as usize - 1].0) },
+            "private_directory_on_disk": format!("variant {} ({})", self.disk, VARIANTS[self.disk as usize].0),
         })
     }
 }
 
 pub struct Store {
     pub root: PathBuf,
+    /// the worker's private directory and the variant it holds (None: not written yet)
+    private: PathBuf,
+    on_disk: std::cell::Cell<Option<u8>>,
 }
 
 impl Store {
@@ -117,7 +158,22 @@ impl Store {
                 }
             }
         }
-        Store { root: root.to_path_buf() }
+        Store { root: root.to_path_buf(), private: root.join(format!("private-{}", std::process::id())), on_disk: std::cell::Cell::new(None) }
+    }
+    /// Makes the private directory hold variant `v`.
+    pub fn sync(&self, v: u8) {
+        if self.on_disk.get() == Some(v) {
+            return;
+        }
+        let _ = std::fs::remove_dir_all(&self.private);
+        std::fs::create_dir_all(&self.private).expect("private glob directory");
+        for (name, src) in VARIANTS[v as usize].1 {
+            std::fs::write(self.private.join(name), src).expect("write private glob file");
+        }
+        self.on_disk.set(Some(v));
+    }
+    pub fn cleanup(&self) {
+        let _ = std::fs::remove_dir_all(&self.private);
     }
     pub fn pattern(&self, op: Op) -> Option<String> {
         let r = self.root.to_string_lossy();
@@ -126,6 +182,7 @@ impl Store {
             Op::NoStar => Some(format!("{r}/g1")),
             Op::Unbuildable => Some(format!("{r}/g1/*.{{html")),
             Op::MatchesNothing => Some(format!("{r}/g1/*.nothing")),
+            Op::GlobChanging => Some(format!("{}/**/*.html", self.private.to_string_lossy())),
             _ => None,
         }
     }
@@ -138,11 +195,18 @@ pub fn op_json(op: Op) -> Json {
         Op::Unbuildable => json!({"op": "load_from_glob", "pattern": "<scratch>/g1/*.{html", "note": "unclosed alternation: the pattern does not build"}),
         Op::MatchesNothing => json!({"op": "load_from_glob", "pattern": "<scratch>/g1/*.nothing", "note": "a valid pattern no file matches"}),
         Op::Reload => json!({"op": "full_reload"}),
+        Op::GlobChanging => json!({"op": "load_from_glob", "pattern": "<private>/**/*.html", "note": "finds the variant that is on disk at that moment"}),
+        Op::Disk(v) => json!({"op": "files on disk change (no engine call)", "private_directory_becomes": VARIANTS[v].0, "files": VARIANTS[v].1.iter().map(|(n, s)| json!({"name": n, "source": s})).collect::<Vec<_>>()}),
         Op::Manual(i) => json!({"op": "add_raw_template", "name": MANUAL[i].0, "source": MANUAL[i].1}),
     }
 }
 
-pub fn apply(t: &mut Tera, store: &Store, op: Op) -> Out {
+pub fn apply(t: &mut Tera, store: &Store, st: State, op: Op) -> Out {
+    if let Op::Disk(_) = op {
+        return Out::Ok(String::new());
+    }
+    // what load_from_glob / full_reload find in the private directory
+    store.sync(st.disk);
     engine::to_out_unit(engine::guarded(|| match op {
         Op::Reload => t.full_reload(),
         Op::Manual(i) => t.add_raw_template(MANUAL[i].0, MANUAL[i].1),
@@ -156,7 +220,9 @@ pub fn requested(st: State, op: Op) -> Option<State> {
         Op::Glob(k) => Some(State { glob: k as u8 + 1, ..st }),
         Op::MatchesNothing => Some(State { glob: 255, ..st }),
         Op::NoStar | Op::Unbuildable => None,
-        Op::Reload => (st.glob != 0).then_some(st),
+        Op::Reload => (st.glob != 0).then_some(State { loaded: if st.glob == 254 { st.disk } else { st.loaded }, ..st }),
+        Op::GlobChanging => Some(State { glob: 254, loaded: st.disk, ..st }),
+        Op::Disk(v) => Some(State { disk: v as u8, ..st }),
         Op::Manual(i) => Some(State { manual: st.manual | (1 << i), ..st }),
     }
 }
@@ -217,6 +283,8 @@ pub struct Oracle {
 
 impl Oracle {
     pub fn fresh(&mut self, st: State) -> &Option<Obs> {
+        // the templates of a state do not depend on what is on disk now
+        let st = State { disk: 0, loaded: if st.glob == 254 { st.loaded } else { 0 }, ..st };
         self.cache.entry(st).or_insert_with(|| {
             let mut t = Tera::default();
             match engine::add_templates(&mut t, &st.templates()) {
@@ -224,5 +292,137 @@ impl Oracle {
                 _ => None,
             }
         })
+    }
+}
+
+// ---------------------------------------------------------------------------------- explorer
+
+/// Depth-first exploration of every history over `ops`; every call is judged.
+pub struct Explorer<'a> {
+    pub family: &'static str,
+    pub store: &'a Store,
+    pub oracle: Oracle,
+    pub labels: Vec<String>,
+    pub ops: &'a [Op],
+    pub counts: BTreeMap<&'static str, u64>,
+}
+
+fn opname(op: Op) -> &'static str {
+    match op {
+        Op::Glob(_) | Op::NoStar | Op::Unbuildable | Op::MatchesNothing | Op::GlobChanging => "load_from_glob",
+        Op::Reload => "full_reload",
+        Op::Manual(_) => "add_raw_template",
+        Op::Disk(_) => "files-change",
+    }
+}
+
+impl<'a> Explorer<'a> {
+    pub fn new(family: &'static str, store: &'a Store, ops: &'a [Op]) -> Explorer<'a> {
+        Explorer { family, store, oracle: Oracle::default(), labels: obs_labels(), ops, counts: BTreeMap::new() }
+    }
+
+    /// Executes `op` on a copy of `t`; returns the new instance and the state the model expects.
+    pub fn step(&mut self, acc: &mut Acc, t: &Tera, st: State, hist: &mut Vec<(Op, bool)>, op: Op, count: bool) -> (Tera, State) {
+        let fam = self.family;
+        let mut t2 = t.clone();
+        let out = apply(&mut t2, self.store, st, op);
+        let want_state = requested(st, op).filter(|r| self.oracle.fresh(*r).is_some());
+        let expected_state = want_state.unwrap_or(st);
+        hist.push((op, out.is_ok()));
+        let case = |extra: Json| {
+            let mut j = json!({
+                "family": fam,
+                "history": hist.iter().map(|(o, ok)| { let mut j = op_json(*o); j.as_object_mut().unwrap().insert("returned".into(), json!(if *ok { "Ok" } else { "Err" })); j }).collect::<Vec<_>>(),
+                "state_before_last_call": st.json(),
+                "expected_state_after": expected_state.json(),
+            });
+            j.as_object_mut().unwrap().insert("details".into(), extra);
+            j
+        };
+        let opname = opname(op);
+        let mut class: &'static str = if out.is_ok() { "accepted" } else { "refused" };
+        match (&out, want_state.is_some()) {
+            (Out::Panic(p), _) => {
+                acc.violation(format!("{fam}:panic:{opname}"), format!("{opname} panicked: {p}"), || case(json!({})));
+                class = "panic";
+            }
+            (Out::Ok(_), false) => {
+                acc.violation(format!("{fam}:accepted-invalid:{opname}"), format!("{opname} returned Ok although the requested template set is refused by a fresh instance (or the call cannot succeed)"), || case(json!({})));
+                class = "wrongly-accepted";
+            }
+            (Out::Err(..), true) => {
+                acc.violation(format!("{fam}:refused-valid:{opname}"), format!("{opname} failed ({}) although a fresh instance accepts the requested template set", out.show()), || case(json!({})));
+                class = "wrongly-refused";
+            }
+            _ => {}
+        }
+        let obs = observe(&t2);
+        let want = self.oracle.fresh(expected_state).clone().expect("the expected state is valid by construction");
+        if obs != want {
+            let i = (0..obs.len()).find(|i| obs[*i] != want[*i]).unwrap();
+            let what = if out.is_ok() { "after-accepted" } else { "after-refused" };
+            let labels = &self.labels;
+            acc.violation(
+                format!("{fam}:{what}:{opname}:{}", labels[i].split('(').next().unwrap_or("")),
+                format!("after {opname} returned {}, {} gives {} but a fresh instance holding the expected state gives {}", if out.is_ok() { "Ok" } else { "Err" }, labels[i], obs[i], want[i]),
+                || case(json!({"differences": (0..obs.len()).filter(|i| obs[*i] != want[*i]).map(|i| json!({"call": labels[i], "observed": obs[i], "fresh_instance": want[i]})).collect::<Vec<_>>()})),
+            );
+            class = "wrong-observation";
+        }
+        if count && !matches!(op, Op::Disk(_)) {
+            acc.case(true, class);
+            let nonempty = st.manual != 0 || st.glob != 0;
+            let key: &'static str = match (out.is_ok(), nonempty) {
+                (true, _) => "glob_api_ok",
+                (false, true) => "glob_api_err_on_nonempty",
+                (false, false) => "glob_api_err_on_empty",
+            };
+            *self.counts.entry(key).or_insert(0) += 1;
+            if !out.is_ok() && st.glob != 0 && matches!(op, Op::Glob(_) | Op::NoStar | Op::Unbuildable | Op::GlobChanging) {
+                *self.counts.entry("glob_api_refused_load_over_loaded_glob").or_insert(0) += 1;
+            }
+            if matches!(op, Op::Reload) && !out.is_ok() && st.glob != 0 {
+                *self.counts.entry("glob_api_refused_reload_of_a_loaded_glob").or_insert(0) += 1;
+            }
+            if matches!(op, Op::Reload) && out.is_ok() && hist.iter().rev().skip(1).any(|(o, ok)| !ok && !matches!(o, Op::Disk(_))) {
+                *self.counts.entry("glob_api_reload_after_refused_call").or_insert(0) += 1;
+            }
+        }
+        (t2, expected_state)
+    }
+
+    pub fn dfs(&mut self, acc: &mut Acc, t: &Tera, st: State, hist: &mut Vec<(Op, bool)>, left: u32) {
+        if left == 0 {
+            return;
+        }
+        for i in 0..self.ops.len() {
+            let op = self.ops[i];
+            // two disk changes in a row are one disk change
+            if matches!(op, Op::Disk(_)) && matches!(hist.last(), Some((Op::Disk(_), _))) {
+                continue;
+            }
+            let (t2, st2) = self.step(acc, t, st, hist, op, true);
+            self.dfs(acc, &t2, st2, hist, left - 1);
+            hist.pop();
+        }
+    }
+
+    /// One work item: the history prefix (ops[item / n], ops[item % n]) and every continuation.
+    pub fn run_item(&mut self, acc: &mut Acc, item: u64, depth: u32) {
+        let n = self.ops.len() as u64;
+        let (o1, o2) = (self.ops[(item / n) as usize], self.ops[(item % n) as usize]);
+        if matches!(o1, Op::Disk(_)) && matches!(o2, Op::Disk(_)) {
+            return;
+        }
+        let mut hist = vec![];
+        let t0 = Tera::default();
+        // the first call is counted once (by the item whose second call is operation 0)
+        let (t1, s1) = self.step(acc, &t0, State::default(), &mut hist, o1, item % n == 0);
+        let (t2, s2) = self.step(acc, &t1, s1, &mut hist, o2, true);
+        self.dfs(acc, &t2, s2, &mut hist, depth - 2);
+        for (k, v) in std::mem::take(&mut self.counts) {
+            acc.count(k, v);
+        }
+        self.store.cleanup();
     }
 }
